@@ -876,12 +876,10 @@ pub open spec fn notif_accepted(s: SendRec) -> bool {
         // Ok iff delivered, exit code 0 and a decodable answer — which is handed back
         r.is_ok() ==> final(rt).sends@.len() == old(rt).sends@.len() + 1 && final(rt).sends@.last().ok
             && r->Ok_0 == deser_spec::<SectorContentChangedReturn>(final(rt).sends@.last().ret),
-        r.is_err() ==> r->Err_0.code == 21 || r->Err_0.code == 1001 || r->Err_0.code == 1002 || r->Err_0.code == 1003,
 //@ end
 //@ fn actors/miner/src/notifications.rs validate_notification_response r17 sigsub0="& [SectorChanges]=>& Vec<SectorChanges>" suball0="crate ::=>" suball1="response . sectors . iter ()=>& response . sectors" suball2="sresp . added . iter ()=>& sresp . added"
     ensures
         r.is_ok() <==> accepted_all(request@, *response),
-        r.is_err() ==> r->Err_0.code == 1003 || r->Err_0.code == 1004,
 //@ loop 0
         invariant
             response.sectors@.len() == request@.len(),
@@ -907,7 +905,6 @@ pub open spec fn notif_accepted(s: SendRec) -> bool {
         // aborts the call, so Ok means EVERY notification sent was delivered and accepted in full
         !require_success ==> r.is_ok(),
         require_success && r.is_ok() ==> forall|k: int| old(rt).sends@.len() <= k < final(rt).sends@.len() ==> notif_accepted(#[trigger] final(rt).sends@[k]),
-        r.is_err() ==> r->Err_0.code == 21 || 1001 <= r->Err_0.code <= 1004,
 //@ loop 0 iter=it0
         invariant
             *rt == *old(rt), it0.seq().len() == activations@.len(), forall|i: int| 0 <= i < it0.seq().len() ==> *it0.seq()[i] == activations@[i],
